@@ -537,6 +537,6 @@ func runC13() int {
 }
 
 func c13NodeScenarios() []histParams {
-	ev := []string{"ext:12", "ext:1", "reorg:1:2", "reorg:3:4", "reorg:12:13", "ans", "ans:1", "ansb", "tick:250", "settle"}
+	ev := []string{"ext:12", "ext:1", "reorg:1:2", "reorg:3:4", "reorg:12:13", "duph:0", "duph:1", "ans", "ans:1", "ansb", "tick:250", "settle"}
 	return []histParams{{Prop: "C13", Cfg: WorldCfg{InitialChain: 4, StartHeight: 2, SafeDelayMS: 2000, RemoveMissing: true}, Boot: "synced", Events: ev, Drain: true, BlockFetch: true}}
 }
